@@ -7,6 +7,7 @@ set and every starting list.  No floats are involved except as opaque values
 (`exp`, distances), so the statements hold at `Float`.
 -/
 import Pastel.Model.Distinct
+import Pastel.Lemmas.Annealing
 
 namespace Pastel.C14
 open Pastel
@@ -257,5 +258,81 @@ theorem saStep_fixed {α : Type} [ScT α] (big : α) (p : SaParams α) (st st' :
       · exact chooseIndex_mean_free p st ht
       · exact chooseIndex_min_free p st ht hp
   omega
+
+/-- **Whole runs.** For every stream of random draws, every parameter set (target, mode, metric
+that is symmetric / NaN-free / bounded, temperatures, iteration count) and every starting list
+with `numFixed ≤ n`: a run that returns (does not index out of bounds) leaves each of the first
+`numFixed` colours exactly as it was.  For the `min` target this rests on C15: the table stays
+exact, so the closest pair always contains a free colour. -/
+theorem saRun_fixed {α : Type} [ScT α] [ScOrd α] (big : α) (p : SaParams α) (colors : List (Color α)) (d : Draws)
+    (hm : MetricOk big p.metric) (hk : p.numFixed ≤ colors.length) (st : SaState α)
+    (h : saRun big p colors d = some st) :
+    ∀ i, i < p.numFixed → st.colors[i]? = colors[i]? := by
+  unfold saRun at h
+  simp only [] at h
+  split at h
+  · simp at h; subst h; intro i _; rfl
+  · next hcond =>
+    have hn : 2 ≤ colors.length := by omega
+    have hkn : p.numFixed < colors.length := by omega
+    -- fold invariant: the loop invariant and the fixed prefix
+    have key : ∀ (its : List Nat) (s0 : Option (SaState α)),
+        (∀ s, s0 = some s → SaInv big p colors.length s ∧ ∀ i, i < p.numFixed → s.colors[i]? = colors[i]?) →
+        ∀ s, its.foldl (fun st iter => st.bind (fun s => saStep big p s iter)) s0 = some s →
+          SaInv big p colors.length s ∧ ∀ i, i < p.numFixed → s.colors[i]? = colors[i]? := by
+      intro its
+      induction its with
+      | nil => intro s0 h0 s hs; exact h0 s hs
+      | cons it its ih =>
+        intro s0 h0 s hs
+        simp only [List.foldl_cons] at hs
+        apply ih _ _ s hs
+        intro s1 hs1
+        cases s0 with
+        | none => simp at hs1
+        | some s00 =>
+          simp only [Option.bind_some] at hs1
+          obtain ⟨hinv, hfix⟩ := h0 s00 rfl
+          refine ⟨saInv_step big p colors.length hm hn s00 s1 it hinv hs1, ?_⟩
+          intro i hi
+          have hfree := SaInv.pair_free big p colors.length hm s00 hinv hkn
+          rw [saStep_fixed big p s00 s1 it (Or.inr hfree) hs1 i hi]
+          exact hfix i hi
+    exact (key _ _ (by
+      intro s hs
+      simp at hs; subst hs
+      exact ⟨saInv_init big p colors d hm hn, fun i _ => rfl⟩) st h).2
+
+/-- …and the table returned by the run is exact for the final colours (C15 at this site). -/
+theorem saRun_result_exact {α : Type} [ScT α] [ScOrd α] (big : α) (p : SaParams α) (colors : List (Color α)) (d : Draws)
+    (hm : MetricOk big p.metric) (hn : 2 ≤ colors.length) (st : SaState α)
+    (h : saRun big p colors d = some st) :
+    Exact (labDist p.metric st.labs) colors.length st.result.closest := by
+  unfold saRun at h
+  simp only [] at h
+  split at h
+  · simp at h; subst h
+    exact (saInv_init big p colors d hm hn).exact
+  · have key : ∀ (its : List Nat) (s0 : Option (SaState α)),
+        (∀ s, s0 = some s → SaInv big p colors.length s) →
+        ∀ s, its.foldl (fun st iter => st.bind (fun s => saStep big p s iter)) s0 = some s →
+          SaInv big p colors.length s := by
+      intro its
+      induction its with
+      | nil => intro s0 h0 s hs; exact h0 s hs
+      | cons it its ih =>
+        intro s0 h0 s hs
+        simp only [List.foldl_cons] at hs
+        apply ih _ _ s hs
+        intro s1 hs1
+        cases s0 with
+        | none => simp at hs1
+        | some s00 =>
+          simp only [Option.bind_some] at hs1
+          exact saInv_step big p colors.length hm hn s00 s1 it (h0 s00 rfl) hs1
+    exact (key _ _ (by
+      intro s hs
+      simp at hs; subst hs
+      exact saInv_init big p colors d hm hn) st h).exact
 
 end Pastel.C14
